@@ -427,6 +427,10 @@ func RenderFE(fe string, root *Node, logical Val) (*Rendered, error) {
 			return nil, err
 		}
 		r.Text = sb.String()
+		if h := fnv32(r.Text); h%2 == 1 {
+			// insignificant white space (RFC 8259: space, tab, LF, CR) before, after and between the tokens
+			r.Text = SpaceJSON(r.Text, h)
+		}
 		var spec any
 		if err := json.Unmarshal([]byte(r.Text), &spec); err != nil {
 			return nil, err
@@ -478,6 +482,13 @@ func RenderFE(fe string, root *Node, logical Val) (*Rendered, error) {
 			}
 			req, _ := http.NewRequest(formMethods[k%len(formMethods)], target, strings.NewReader(body.Encode()))
 			req.Header.Set("Content-Type", formCTypes[(k/7)%len(formCTypes)])
+			// a middleware may have looked at the form before the handler does (net/http parses a request once)
+			switch (k / 11) % 4 {
+			case 1:
+				_ = req.ParseForm()
+			case 2:
+				_ = req.FormValue("csrf")
+			}
 			r.Data, r.Req = zhttp.Request(req), req
 		} else {
 			req, _ := http.NewRequest("GET", "http://example.test/x?"+r.Text, nil)
@@ -519,6 +530,51 @@ func RenderFE(fe string, root *Node, logical Val) (*Rendered, error) {
 		return nil, fmt.Errorf("unknown front end %s", fe)
 	}
 	return r, nil
+}
+
+// SpaceJSON inserts insignificant white space around the tokens of a JSON text; which and where is a function of
+// the text and k.
+func SpaceJSON(text string, k uint32) string {
+	ws := []string{"", " ", "\n", "\r\n", "\t", "\r", "  ", "\n\t ", ""}
+	var sb strings.Builder
+	pick := func(i int) string {
+		k = k*1664525 + 1013904223 + uint32(i)
+		return ws[(k>>16)%uint32(len(ws))]
+	}
+	sb.WriteString(pick(-1))
+	inStr, esc := false, false
+	for i := 0; i < len(text); i++ {
+		c := text[i]
+		if inStr {
+			sb.WriteByte(c)
+			switch {
+			case esc:
+				esc = false
+			case c == '\\':
+				esc = true
+			case c == '"':
+				inStr = false
+				sb.WriteString(pick(i))
+			}
+			continue
+		}
+		switch c {
+		case '"':
+			inStr = true
+			sb.WriteByte(c)
+		case '{', '[', ',', ':':
+			sb.WriteByte(c)
+			sb.WriteString(pick(i))
+		case '}', ']':
+			sb.WriteString(pick(i))
+			sb.WriteByte(c)
+			sb.WriteString(pick(i + 1))
+		default:
+			sb.WriteByte(c)
+		}
+	}
+	sb.WriteString(pick(len(text)))
+	return sb.String()
 }
 
 // JSONOf renders a value as JSON text with the map front end's keys (zog tag / schema key).
